@@ -14,7 +14,7 @@ CFG = dict(
               "flatNormals_spec_nondegenerate", "lapUpdate_value_with_neighbours", "neighbours_ne_nil_of_edge", "laplacian_order_independent", "lapIter_any_enumeration", "neighbours_mem", "neighbours_nodup", "laplacian_frame", "smoothNormals_frame", "flatNormals_frame",
               # round 2 (Props/C03More.lean)
               "aabbContains_closed", "aabbContains_corners", "crop_contract", "crop_deciding_attr", "scaleAlongNormal_spec", "scaleAlongNormal_rejects", "scaleAlongNormal_rejects_wf",
-              "scale2D_spec", "normalize2D_spec", "scale2D_rejects", "normalize2D_rejects", "copyAttr_spec", "alongNormal_post", "scale2D_post",
+              "scale2D_spec", "normalize2D_spec", "scale2D_rejects", "normalize2D_rejects", "copyAttr_spec", "alongNormal_post", "scale2D_post", "cropNode_spec", "scaleAlongNormalNode_spec",
               # round 2 (Props/C03Src.lean): the model lambdas are the expressions regenerated from the Go source
               "translate_from_source", "scaleAbout_from_source", "rotate_from_source", "scale2D_from_source", "alongNormal_from_source", "perVertex_glue_from_source", "crop_keep_from_source", "crop_keep_closed"],
     # unfoldings of model definitions / statements over R that do not transfer to Go on the excluded float-only branches
@@ -62,7 +62,7 @@ CFG = dict(
     manifest=dict(
         text="Lean 4 theorems for every payload type: full contracts - each the same decidable predicate the oracle evaluates on implementation output - for unweld (same corners, "
              "identity indices, exactly one vertex per index; idempotent), remove unreferenced (+ all referenced), flip (+ involution), to point cloud, append (concatenated corners, "
-             "zero fill) and repeat, filter, crop (identity-indexed clouds), remove null faces, weld (survivors = triangles with three distinct keys; each corner carries the tuple of the "
+             "zero fill) and repeat, filter, crop (per-corner form on identity-indexed clouds; vertex-level contract crop_contract for ANY index buffer: survivors = vertices in the CLOSED box - aabbContains_closed about the regenerated AABB.Contains -, original order, all arrays with one flag list, identity indices), scale along normal, 2-D scale / normalise, CopyFloatNAttribute (frame + stated map + rejection; per-vertex expressions and loop glue regenerated from the Go source: *_from_source), remove null faces, weld (survivors = triangles with three distinct keys; each corner carries the tuple of the "
              "first vertex of its key class; every vertex referenced), weld-after-unweld (same surviving triangles and per-corner KEYS as weld; other attributes differ: first vertex vs first corner of the key class), split by material (one part per distinct "
              "material in order of first appearance, each exactly its triangles); rejection branches as exact iff statements. Transforms: the FRAME (topology, indices, materials and every "
              "other attribute untouched) for set/modify/map, translate, scale, rotate, apply-TRS, centre, normalise, smooth/flat normals, Laplacian; the 'stated map' theorems name the "
